@@ -35,12 +35,14 @@ class Exploration:
     def __init__(self, harness):
         self.harness = harness; self.paths = 0; self.status = {}; self.checks = {}; self.covers = set(); self.violations = []
         self.unsupported = {}; self.steps = 0; self.queries = 0; self.solver_time = 0.0; self.unknown_branches = 0; self.calls = set()
-        self.samples = []; self.witnesses = []; self.exhausted = True; self.wall = 0.0; self.budget_hit = 0; self.tags = {}
+        self.samples = []; self.witnesses = []; self.exhausted = True; self.wall = 0.0; self.budget_hit = 0; self.tags = {}; self.nontrivial = set()
     def add(self, d):
         st = d['status']; self.status[st] = self.status.get(st, 0) + 1
         if st != 'infeasible': self.paths += 1
         for cid, verdict, _ in d['checks']:
             c = self.checks.setdefault(cid, {}); c[verdict] = c.get(verdict, 0) + 1
+            # decided with the solver: discharged by a query, or evaluated on a path whose feasibility the solver decided
+            if verdict in ('proved', 'violated') or d['queries'] > 0 or len(d['decisions']) > 0: self.nontrivial.add(cid)
         self.covers.update(d['covers']); self.violations.extend(d['violations'])
         for v in d['violations']: v['harness'] = self.harness
         if st == 'unsupported':
